@@ -10,6 +10,7 @@
  *   x08_drv rr <n> <callers> <ms>   concurrent tp_thread_get_rr callers; one JSON line
  *   x08_drv pre                     facts that need a process without any pool; one JSON line
  * The driver never computes an expectation: it reports what the library returned and what reached the wrappers. */
+#include <sys/time.h>
 #include <semaphore.h>
 #include <stdarg.h>
 #include <sched.h>
@@ -31,6 +32,7 @@ int __real_pthread_create(pthread_t *, const pthread_attr_t *, void *(*)(void *)
 
 /* ------------------------------------------------------------------ wrappers: record, never decide */
 #define NFD 1024
+static void on_case_watchdog(int sig);
 static struct { int has; uint32_t ev; void *ptr; } g_int[NFD];   /* acknowledged state of the observed epoll set */
 static int g_epfd = -1;
 static int g_nctl, g_nset, g_ncreate, g_nlowat, g_nclose_t;
@@ -519,7 +521,12 @@ static int life_main(const char *scn, const char *out) {
 	g_tr = fopen(out, "w"); if (!g_tr) { perror(out); return 3; }
 	g_life = 1;
 	char line[1024];
-	alarm(60);
+	{	/* watchdog of the whole script: 10 s of CPU time of the process (a spinning pool thread) or 60 s of wall clock -> "FAULT sig=14" */
+		struct itimerval it; memset(&it, 0, sizeof(it)); it.it_value.tv_sec = 10;
+		signal(SIGALRM, on_case_watchdog); signal(SIGPROF, on_case_watchdog);
+		setitimer(ITIMER_PROF, &it, NULL);
+		alarm(60);
+	}
 	while (fgets(line, sizeof(line), f)) {
 		size_t L = strlen(line); while (L && (line[L - 1] == '\n' || line[L - 1] == ' ')) line[--L] = 0;
 		if (L == 0 || line[0] == '#') continue;
@@ -647,6 +654,18 @@ static int pre_main(void) {
 	return 0;
 }
 
+/* per-case non-termination watchdog of the table modes (a case takes microseconds): 2 s of CPU time of the process (robust on a
+ * loaded machine) or 20 s of wall clock without an answer = the call did not return -> "FAULT sig=14", exit 99 */
+static void on_case_watchdog(int sig) {
+	static const char m[] = "\nFAULT sig=14 watchdog: the call did not return\n";
+	(void)sig; (void)!write(2, m, sizeof(m) - 1); _exit(99);
+}
+static void case_watchdog(void) {
+	struct itimerval it; memset(&it, 0, sizeof(it)); it.it_value.tv_sec = 2;
+	signal(SIGALRM, on_case_watchdog); signal(SIGPROF, on_case_watchdog);
+	setitimer(ITIMER_PROF, &it, NULL);
+	alarm(20);
+}
 int main(int argc, char **argv) {
 	setvbuf(stdout, NULL, _IOLBF, 0);
 	signal(SIGPIPE, SIG_IGN);
@@ -657,12 +676,12 @@ int main(int argc, char **argv) {
 	static char line[8192];
 	if (0 == strcmp(argv[1], "ev")) {
 		ev_setup();
-		while (fgets(line, sizeof(line), stdin)) { alarm(20); ev_case(line); }
+		while (fgets(line, sizeof(line), stdin)) { case_watchdog(); ev_case(line); }
 		return 0;
 	}
 	if (0 == strcmp(argv[1], "set")) {
 		struct rlimit rl; getrlimit(RLIMIT_NOFILE, &rl); rl.rlim_cur = 256; setrlimit(RLIMIT_NOFILE, &rl);
-		while (fgets(line, sizeof(line), stdin)) { alarm(20); set_case(line); }
+		while (fgets(line, sizeof(line), stdin)) { case_watchdog(); set_case(line); }
 		return 0;
 	}
 	return 2;
